@@ -160,12 +160,21 @@ package gts
 //@   ensures !isnil(out)
 //@   assigns nothing
 
+//@ func flattenLocations(locs []Location) (list []Location)
+//@   prop C02 C06 C11
+//@   ensures fresh(list)
+//@   ensures flat: forall k in 0..len(list): !is(list[k], Ordered)
+//@   ensures copy: (forall k in 0..len(locs): !is(locs[k], Ordered)) ==> len(list) == len(locs) && (forall k in 0..len(locs): list[k] == locs[k])
+//@   assigns nothing
+//@   loop 1: invariant fresh(list) && (forall k in 0..len(list): !is(list[k], Ordered))
+//@   loop 1: invariant (forall k in 0..i: !is(locs[k], Ordered)) ==> len(list) == i && (forall k in 0..i: list[k] == locs[k])
+//@   loop 1: decreases len(locs) - i
+
 //@ func Order(locs ...Location) (out Location)
-//@   prop C02
-//@   trusted flattenLocations is recursive over nested Ordered values; only the two-part case is assumed
-//@   requires len(locs) >= 1
-//@   ensures len(locs) == 2 && !is(locs[0], Ordered) && !is(locs[1], Ordered) ==>
-//@      is(out, Ordered) && len(out.(Ordered)) == 2 && out.(Ordered)[0] == locs[0] && out.(Ordered)[1] == locs[1]
+//@   prop C02 C06
+//@   requires len(locs) >= 1 && (forall k in 0..len(locs): !is(locs[k], Ordered))
+//@   ensures len(locs) == 1 ==> out == locs[0]
+//@   ensures len(locs) >= 2 ==> is(out, Ordered) && len(out.(Ordered)) == len(locs) && fresh(out.(Ordered)) && (forall k in 0..len(locs): out.(Ordered)[k] == locs[k])
 //@   assigns nothing
 
 // ---------------------------------------------------------------------------
